@@ -73,17 +73,17 @@ type SpecFunc struct {
 }
 
 type TypeDecl struct {
-	Pkg, Type  string
-	Nonnil     []string
-	GuardedBy  map[string]string // field -> lock field
-	Invs       []Clause
-	Immutable  []string
-	Stable     []string // not changed by other threads once the object is shared (assumption; writes restricted)
-	NonnilElems bool
+	Pkg, Type        string
+	Nonnil           []string
+	GuardedBy        map[string]string // field -> lock field
+	Invs             []Clause
+	Immutable        []string
+	Stable           []string // not changed by other threads once the object is shared (assumption; writes restricted)
+	NonnilElems      bool
 	NonnilElemsField string
-	Frozen     []string // like stable, and no call changes it on an object that existed before the call: written only by the declaring package while the object is under construction (writers checked)
-	ValsNonnil []string // containers (maps, slices) in these fields hold no nil values
-	Writers    []WritersDecl
+	Frozen           []string // like stable, and no call changes it on an object that existed before the call: written only by the declaring package while the object is under construction (writers checked)
+	ValsNonnil       []string // containers (maps, slices) in these fields hold no nil values
+	Writers          []WritersDecl
 }
 
 // WritersDecl: only the listed functions may store to the field of an existing object.
@@ -102,22 +102,32 @@ type Axiom struct {
 	Using []string
 }
 
+// GlobalInv: a fact about package-level variables which only package initialisers write. It is
+// proved as a postcondition of the package initialiser and assumed on entry of every other
+// function of the package that reads one of the variables (and is not reached from the initialiser).
+type GlobalInv struct {
+	Clause
+	Pkg   string
+	Props []string
+}
+
 type Contracts struct {
-	Funcs   map[string]*FuncContract
-	Ifaces  map[string]*FuncContract // key: pkg.Iface.method
-	FuncTypes map[string]*FuncContract // key: pkg.FuncType
+	GlobalInvs    []*GlobalInv
+	Funcs         map[string]*FuncContract
+	Ifaces        map[string]*FuncContract // key: pkg.Iface.method
+	FuncTypes     map[string]*FuncContract // key: pkg.FuncType
 	pendingExtras []*FuncContract
-	Specs   map[string]*SpecFunc
-	Types   map[string]*TypeDecl // key pkg.Type
-	Axioms  []*Axiom
-	Conds   []*CondDecl
-	Globals map[string]string // pkg.var -> declaration (e.g. "guarded_by pkg.lock", "atomic", "init_only")
+	Specs         map[string]*SpecFunc
+	Types         map[string]*TypeDecl // key pkg.Type
+	Axioms        []*Axiom
+	Conds         []*CondDecl
+	Globals       map[string]string // pkg.var -> declaration (e.g. "guarded_by pkg.lock", "atomic", "init_only")
 	// closed interfaces: pkg.Iface -> the only dynamic types its values ever have (checked: every
 	// conversion to the interface in the program starts from one of them)
-	IfaceTypes map[string][]string
+	IfaceTypes   map[string][]string
 	IfaceTypesAt map[string]string
-	Files   []string
-	Errors  []string
+	Files        []string
+	Errors       []string
 }
 
 func newContracts() *Contracts {
@@ -278,6 +288,35 @@ func (cs *Contracts) LoadFile(path string) {
 			c, ok := cs.parseClause(path, ln, text)
 			if ok {
 				cs.Axioms = append(cs.Axioms, &Axiom{Clause: c, Pkg: pkg, Lemma: word == "lemma", Using: using})
+			}
+		case "global-invariant":
+			// global-invariant C20[,C06] label: expr
+			cur, curType = nil, nil
+			parts := strings.SplitN(rest, " ", 2)
+			if len(parts) < 2 {
+				cs.errf(path, ln, "global-invariant <properties> label: expr")
+				continue
+			}
+			c, ok := cs.parseClause(path, ln, parts[1])
+			if ok {
+				gi := &GlobalInv{Clause: c, Pkg: pkg, Props: strings.Split(parts[0], ",")}
+				cs.GlobalInvs = append(cs.GlobalInvs, gi)
+				key := pkg + ".init"
+				fc := cs.Funcs[key]
+				if fc == nil {
+					fc = &FuncContract{Key: key, Pkg: pkg, Loops: map[int]*LoopContract{}, Opts: map[string]string{}, File: path, Line: ln}
+					cs.Funcs[key] = fc
+				}
+				for _, p := range gi.Props {
+					has := false
+					for _, q := range fc.Props {
+						has = has || q == p
+					}
+					if !has {
+						fc.Props = append(fc.Props, p)
+					}
+				}
+				fc.Ensures = append(fc.Ensures, c)
 			}
 		case "type":
 			cur = nil
@@ -516,7 +555,9 @@ func (cs *Contracts) funcClause(cur *FuncContract, path string, ln int, word, re
 		} else {
 			cur.Opts[kv[0]] = "true"
 		}
-	case "assert", "assume", "finding":
+	case "assert", "assume", "finding", "prove":
+		// prove at <site>: label: expr - an intermediate lemma: asserted at the site and, once proved there,
+		// available to everything downstream (assert alone is only checked).
 		// finding at <site>: label: expr - a recorded defect: asserted (the obligation fails and is matched
 		// with known_findings.json by its name) and then assumed, so that everything downstream is checked
 		// as if the defect were repaired and a different violation is still reported.
